@@ -109,6 +109,16 @@ func vPeerKey(p peer.ID) (*k1.PublicKey, error) {
 	return nil, context.Canceled
 }
 
+// vPeerIDFromKey: the inverse of vPeerKey (engine only; p2p.PeerIDFromKey is redirected here).
+func vPeerIDFromKey(k *k1.PublicKey) (peer.ID, error) {
+	for i := 0; i < vN; i++ {
+		if k == vPub[i] {
+			return vPeerID[i], nil
+		}
+	}
+	return "", context.Canceled
+}
+
 // vHash: ideal sha256 (engine only; crypto/sha256.New is redirected to vNewHash): injective in the written byte stream.
 type vHash struct{ buf []byte }
 
